@@ -5,6 +5,8 @@ import (
 	"time"
 
 	"pgregory.net/rapid"
+
+	"github.com/Flowpack/prunner/definition"
 )
 
 // BeginCompleteBehindSave and EndCompleteBehindSave drive one job to its end in such a way that the saves
@@ -220,7 +222,7 @@ func (m *Machine) ActScheduleWhileCompleting(t *rapid.T) {
 	}
 	m.w.Stats.hit("schedule:while-a-job-completes")
 	m.window = r
-	m.actSchedule(t, j.Pipeline)
+	m.actSchedule(t, j.Pipeline, true)
 	if m.window != nil { // (the request was not issued)
 		m.window = nil
 		m.w.mu.Lock()
@@ -293,4 +295,39 @@ func (m *Machine) ChangeDuringSlowSave(t *rapid.T, variant string) bool {
 		m.w.Stats.hit("change-during-slow-save:" + variant)
 	}
 	return ok
+}
+
+// ReplaceWaitingLate schedules a job for a pipeline with the replace strategy that has a waiting job (the new job
+// takes its place): one acknowledged change of its own kind for the persist check. It reports whether it did.
+func (m *Machine) ReplaceWaitingLate(t *rapid.T) bool {
+	for _, p := range m.definedPipelines() {
+		def := m.w.Defs.Pipelines[p]
+		if def.QueueStrategy != definition.QueueStrategyReplace {
+			continue
+		}
+		if _, waiting := m.jobsOf(m.snap, p); len(waiting) > 0 {
+			n := len(m.order())
+			m.ActScheduleOn(t, p)
+			if len(m.order()) > n {
+				m.w.Stats.hit("late-change:replace-of-waiting-job")
+				return true
+			}
+		}
+	}
+	return false
+}
+
+// PrepareReplaceWaiting leaves a waiting job on a pipeline with the replace strategy, if there is such a pipeline.
+func (m *Machine) PrepareReplaceWaiting(t *rapid.T) {
+	for _, p := range m.definedPipelines() {
+		if m.w.Defs.Pipelines[p].QueueStrategy != definition.QueueStrategyReplace {
+			continue
+		}
+		for i := 0; i < 3; i++ {
+			if _, waiting := m.jobsOf(m.snap, p); len(waiting) > 0 {
+				return
+			}
+			m.ActScheduleOn(t, p)
+		}
+	}
 }
